@@ -237,7 +237,9 @@ impl Pool {
         ty: TyRef,
         rt: &Rt,
     ) -> Option<bool> {
-        if self.layout_of(ty, rt)?.size() == 0 {
+        if !matches!(self.get(ty), Ty::Runtime(_))
+            && self.layout_of(ty, rt)?.size() == 0
+        {
             return Some(false);
         }
 
